@@ -43,12 +43,11 @@ PROP = "C06"
 THEOREMS = ["C06_gauss_value", "C06_exp_value", "C06_unif_value", "C06_outside_support",
             "C06_gauss_gradient", "C06_exp_gradient", "C06_unif_gradient",
             "C06_exp_pdf_normalised", "C06_unif_pdf_normalised",
-            "C06_merge_preserves_assignments",
-            "C06_joint_value", "C06_joint_value_components", "C06_joint_gradient", "C06_joint_gradient_components",
-            "C06_joint_gradient_is_derivative",
-            "C06_joint_bounds", "C06_joint_sample",
+            "C06_merge_preserves_assignments", "C06_constructor_accepts_partitions",
+            "C06_joint_value", "C06_joint_gradient", "C06_joint_gradient_components",
+            "C06_joint_gradient_is_derivative", "C06_joint_bounds", "C06_joint_sample",
             "C06_posterior_sum", "C06_posterior_gradient_is_derivative",
-            "C06_guesses_sorted_prefix", "C06_uniform_gradient_alias_refuted"]
+            "C06_guesses_sorted_prefix", "C06_guesses_stable", "C06_uniform_gradient_alias_refuted"]
 
 HEADER = """From Coq Require Import List QArith ZArith.
 From IT Require Import Model.JointPrior.
@@ -721,7 +720,7 @@ def run(rep: C.Report, tier: str) -> int:
 
     # ---------------- interval goals
     pre = PREAMBLE + "\n".join(defs) + "\n"
-    failed, broken = I.check_goals(PROP, "goals", goals, preamble=pre, chunk=30, jobs=14)
+    failed, broken = I.check_goals(PROP, "goals", goals, preamble=pre, chunk=18, jobs=16)
     rep.obligation(True, len(goals) - len(failed))
     rep.obligation(False, len(failed))
     rep.coverage["interval_goals"] = len(goals)
